@@ -4,3 +4,4 @@ pub mod elem;
 pub mod rng;
 pub mod px;
 pub mod pxx;
+pub mod spell;
